@@ -18,5 +18,6 @@ INVARIANT InvPUnionRight
 INVARIANT InvPNeverBottom
 INVARIANT InvPObjectTop
 INVARIANT InvPInheritance
+INVARIANT InvPDevInhabited
 INVARIANT EmitP
 INVARIANT EmitTab
